@@ -165,12 +165,48 @@ func (ev *tEval) toStr(v aval, src ssa.Value) *aStr {
 	return holeStr(ev.namedHole("unknown", name, -1, false, src))
 }
 
+var unknownStrHoles = map[ssa.Value]*tHole{}
+
+func unknownAsStr(u *aUnknown) *aStr {
+	if u.v == nil {
+		return nil
+	}
+	if bt, ok := u.v.Type().Underlying().(*types.Basic); !ok || bt.Info()&types.IsString == 0 {
+		return nil
+	}
+	h := unknownStrHoles[u.v]
+	if h == nil {
+		name := u.v.Name()
+		if fn := u.v.Parent(); fn != nil {
+			name = fn.Name() + ":" + name
+		}
+		h = &tHole{kind: "unknown", name: name, idx: -1, src: u.v}
+		unknownStrHoles[u.v] = h
+	}
+	return holeStr(h)
+}
+
 func joinVals(a, b aval) aval {
 	if a == nil {
 		return b
 	}
 	if b == nil {
 		return a
+	}
+	// a string the evaluator knows nothing about is still one of the forms the joined value can take
+	if u, ok := a.(*aUnknown); ok {
+		if _, isStr := b.(*aStr); isStr {
+			if us := unknownAsStr(u); us != nil {
+				a = us
+			}
+		}
+	}
+	if u, ok := b.(*aUnknown); ok {
+		if _, isStr := a.(*aStr); isStr {
+			if us := unknownAsStr(u); us != nil {
+				b = us
+			}
+		}
 	}
 	switch x := a.(type) {
 	case *aStr:
@@ -818,16 +854,25 @@ func (ev *tEval) join(arr *aArr, delim *aStr, c *ssa.Call) aval {
 			continue
 		}
 		// summary element: three copies show a first, a middle and a last position
-		for _, e := range ev.toStr(arr.read(-1), c).alts {
-			a := tAlt{guards: append(append([]tGuard{}, d.guards...), e.guards...)}
-			for k := 0; k < 3; k++ {
-				if k > 0 {
+		// (the elements need not be printed alike: every choice of first, middle and last among the element's forms)
+		elems := ev.toStr(arr.read(-1), c).alts
+		if len(elems) > 4 {
+			elems = elems[:4]
+			ev.note("join of an element with more than 4 forms at %s: only the first 4 combined", ev.p.Pos(c.Pos()))
+		}
+		for _, e1 := range elems {
+			for _, e2 := range elems {
+				for _, e3 := range elems {
+					a := tAlt{guards: append(append(append(append([]tGuard{}, d.guards...), e1.guards...), e2.guards...), e3.guards...)}
+					a.pieces = append(a.pieces, e1.pieces...)
 					a.pieces = append(a.pieces, d.pieces...)
+					a.pieces = append(a.pieces, e2.pieces...)
+					a.pieces = append(a.pieces, d.pieces...)
+					a.pieces = append(a.pieces, e3.pieces...)
+					a.pieces = normPieces(a.pieces)
+					out.add(a)
 				}
-				a.pieces = append(a.pieces, e.pieces...)
 			}
-			a.pieces = normPieces(a.pieces)
-			out.add(a)
 		}
 	}
 	return out
